@@ -86,14 +86,20 @@ structure Spec where
   /-- `lock_neuron` validates the caches *before* it takes the lock:
   `if not x.is_locked and x.is_stale: x._clear_temp_attr()` precedes the increment of `_lock` -/
   lockChecksStale : Bool
+  /-- the in-place operators `*= /= += -=` (hence `convert_units(inplace=True)`) validate the caches before they run:
+  `if not self.is_locked and self.is_stale: self._clear_temp_attr()` -/
+  iopValidates : Bool
   /-- `core_md5` restricts the table to the `CORE_DATA` columns (`data = data[cols]`) before hashing -/
   hashSelectsCols : Bool
+  /-- `core_md5` feeds every selected column to the hash function in its own dtype (`data[c].values` per column):
+  nothing is converted, integer ids of any size and float coordinates reach the hash function as they are -/
+  hashNative : Bool
   /-- the dtype conversion `core_md5` applies to the selected columns before hashing, as written in the source
   (`""` when there is none beyond `DataFrame.values`, e.g. `"data.to_numpy(dtype=np.float32)"`) -/
   hashCast : String
-  /-- number of significand bits of the array that reaches the hash function: 53 for `DataFrame.values` on the
-  int64 / float64 node table (pandas picks float64 as common dtype), 24 for an explicit float32 cast, 11 for
-  float16, 0 for a conversion the translator does not know -/
+  /-- when the table is hashed as ONE array: number of significand bits of that array — 53 for `DataFrame.values`
+  on the int64 / float64 node table (pandas picks float64 as common dtype), 24 for an explicit float32 cast, 11 for
+  float16, 0 for a conversion the translator does not know (unused, 0, when `hashNative`) -/
   hashBits : Nat
   /-- cached graph objects that `TreeNeuron.copy()` hands to the copy as a *view* of the original's object
   (`_graph_nx.copy(as_view=…)`) -/
@@ -265,6 +271,13 @@ def soundB (sp : Spec) : Bool :=
 neuron is already locked (nested call), otherwise an `is_stale` evaluation and, if stale, a clear. -/
 def lockEntryPrims (sp : Spec) (s : St) : List Ev :=
   if !sp.lockChecksStale || decide (0 < s.lock) then []
+  else if (isStaleS sp s).stale then [.isStale, .clear []] else [.isStale]
+
+/-- What an in-place operator (`x *= k`, `/=`, `+=`, `-=`) does in state `s` *before* it touches the coordinates:
+nothing when the source has no such step or the neuron is locked, otherwise an `is_stale` evaluation and, if
+stale, a full clear (which re-classifies). -/
+def validatePrims (sp : Spec) (s : St) : List Ev :=
+  if !sp.iopValidates || decide (0 < s.lock) then []
   else if (isStaleS sp s).stale then [.isStale, .clear []] else [.isStale]
 
 /-- A call, in state `s`, of a `@lock_neuron` function whose body performs `body` and then returns or raises. -/
